@@ -73,6 +73,7 @@ def setup():
     import vyxal.elements
     import vyxal.helpers
 
+    warnings.simplefilter("ignore")   # again: importing sympy installs its own "once" filter for its deprecation warnings
     root = os.path.realpath(REPO)
     assert os.path.realpath(vyxal.transpile.__file__).startswith(root + os.sep), (
         "vyxal imported from %s, not from %s" % (vyxal.transpile.__file__, root)
